@@ -48,12 +48,21 @@ ShapeD(w) ==
          I("E", FALSE, <<>>)>>),
      S(SeqB, "E", FALSE, <<>>),
      Sent>> : a \in LMs(w), b \in LMs(w), dl \in SeqDLs}
+(* mixed-length nesting: an item whose LAST element is a nested sequence (or nested       *)
+(* encapsulated pixel data), every combination of explicit / undefined lengths of the outer  *)
+(* sequence, the item and the nested sequence                                                *)
+ShapeF(w) ==
+  {<<S(SeqA, a.lm, a.oddc,
+       <<I(b.lm, b.oddc, <<P(SelTag("US"), "US", dl, 1),
+                          S(SeqB, c.lm, c.oddc, <<I(a.lm, FALSE, <<P(SelTag("OB"), "OB", dl, 4)>>)>>)>>),
+         I(c.lm, FALSE, <<P(SelTag("LO"), "LO", 3, 2), X(<<F(0, 0), F(dl, 1)>>)>>)>>),
+     Sent>> : a \in LMs(w), b \in LMs(w), c \in LMs(w), dl \in SeqDLs}
 ShapeE ==
   {<<Lead, X(<<F(d0, 0), F(d1, 1)>>)>> : d0 \in Frag0DLs, d1 \in Frag1DLs}
   \cup {<<Lead, X(<<F(d0, 0), F(d1, 1), F(1, 2)>>), Sent>> : d0 \in Frag0DLs, d1 \in Frag1DLs}
   \cup {<<X(<<>>), Sent>>, <<X(<<F(0, 0)>>)>>}
 
-Shapes(w) == ShapeA \cup ShapeB \cup ShapeC(w) \cup ShapeD(w) \cup ShapeE
+Shapes(w) == ShapeA \cup ShapeB \cup ShapeC(w) \cup ShapeD(w) \cup ShapeE \cup ShapeF(w)
 
 Cases == {[ds |-> ds, ts |-> t, odd |-> o, mode |-> m] :
             ds \in Shapes("exact"), t \in TSs, o \in {"Accept", "Fail"}, m \in Modes}
